@@ -155,7 +155,11 @@ def check(fx, rep, tier):
             arms = [re.sub(r'\s', '', p.get('pat') or '') for p in path if p.get('k') == 'arm']
             in_else = [p for p in path if p.get('k') == 'if' and x in list(A.nodes(p.get('else')))]
             branch = ('else-of:' if in_else else 'if:') + conds[-1] if conds else ''
-            key = '%s|list-loop|%s|%s|%s' % (ty, it, '/'.join(arms[-1:]), 'else' if in_else else ('then' if conds else 'plain'))
+            # which of the renderer's layouts this loop belongs to is read off what it writes (one element per line or not), not off the position of
+            # the branch: `if c {A} else {B}` and `if !c {B} else {A}` are the same renderer
+            multiline = any(m.get('name') == 'writeln' or '\\n' in fmt_of(m) or '\n' in fmt_of(m) for m in ws_)
+            layout = ('multi-line' if multiline else 'single-line') if conds else 'plain'
+            key = '%s|list-loop|%s|%s|%s' % (ty, re.sub(r'\.enumerate\(\)$', '', it), '/'.join(arms[-1:]), layout)
             rep.check(sep, 'R14.1', key, '%s:%s' % (f, x.get('line')), 'list elements of %s are separated by `,`' % it,
                       'the renderer of %s writes the elements of `%s` without a `,` between them%s: the text does not follow the grammar and the parser rejects it' % (
                           ty, it, (' in the branch `%s`' % conds[-1]) if conds else ''))
